@@ -610,6 +610,20 @@ def run(index, rep, tier):
                                   "%s pairs the items of `%s` with `%s`: the slice starts at the outer item itself, so every item is also paired with itself - NodeDistanceMatrix.distances() returns n-1 extra zero entries (20 entries for 6 nodes instead of 15; mean 4.75 instead of 6.33)" % (f.qualname, seq, norm(sl[0])[:40]))
         rep.floor("R14.16", "nested pair loops over a slice of the outer sequence", 1, n16)
 
+    # ---- R14.17 a normalisation factor that was asked for is applied
+    with rep.section("R14.17"):
+        rep.rule("R14.17", "a normalisation factor that was asked for is applied: every method of PhylogeneticDistanceMatrix that takes `dmatrix, normalization_factor` from _get_distance_matrix_and_normalization_factor() reads the factor (the summaries and writers divide by it) - the twin summaries mean_pairwise_distance / mean_nearest_taxon_distance share this tail, and rewriting one of them without the division returns the raw mean when `is_normalize_by_tree_size=True` was requested")
+        n17 = 0
+        for mname, mf in sorted(index.klass("dendropy.calculate.phylogeneticdistance.PhylogeneticDistanceMatrix").methods.items()):
+            for a in ast.walk(mf.node):
+                if isinstance(a, ast.Assign) and isinstance(a.value, ast.Call) and call_name(a.value) == "_get_distance_matrix_and_normalization_factor" and len(a.targets) == 1 and isinstance(a.targets[0], ast.Tuple) and len(a.targets[0].elts) == 2 and isinstance(a.targets[0].elts[1], ast.Name):
+                    n17 += 1
+                    fac = a.targets[0].elts[1].id
+                    used = any(isinstance(x, ast.Name) and x.id == fac and isinstance(x.ctx, ast.Load) for x in ast.walk(mf.node))
+                    rep.check(used, "R14.17", mf.qualname, "normalisation factor obtained and never applied", fn_where(mf, a), "%s applies the factor it obtained" % mname,
+                              "PhylogeneticDistanceMatrix.%s obtains `%s` and never reads it: with is_normalize_by_tree_size=True the result is the raw value (a mean pairwise distance of 6.2 where 0.459 of the tree length is expected), while its twin summary still normalises" % (mname, fac))
+        rep.floor("R14.17", "methods that obtain a normalisation factor", 3, n17)
+
 
 def option_default_rule(index, rep, rid, cq, options):
     ci = index.klass(cq)
